@@ -69,7 +69,7 @@ def sbTys (ps : List (Val × Ty)) (is : List Instr) : List (Nat × Ty) := ps ++ 
 theorem validBlocks_sb : (sb ps is).validBlocks = [Block.mk 0 0 false ps is] := by
   simp [Func.validBlocks, sb]
 
-theorem cert_M (h : ∀ i ∈ is, i.branch? = none) : (computeCert (sb ps is)).M = is.length + 2 := by
+theorem cert_M (_h : ∀ i ∈ is, i.branch? = none) : (computeCert (sb ps is)).M = is.length + 2 := by
   simp [computeCert, validBlocks_sb]
 
 theorem cert_bidx (h : ∀ i ∈ is, i.branch? = none) : (computeCert (sb ps is)).bidx 0 = 0 := by
